@@ -57,7 +57,7 @@ def actions_of(x, full=True):
         for p in PW[x]:
             acts.append((x, "update", n, p))
     acts.append((x, "update", OWN[y], PW[x][0]))
-    acts += [(x, "delete-account"), (x, "add", "x"), (x, "add-anon", "x"), (x, "solve", "x"), (x, "get", "x"), (x, "list"), (x, "delete", "x")]
+    acts += [(x, "delete-account"), (x, "add", "x"), (x, "add", "y"), (x, "add-anon", "x"), (x, "solve", "x"), (x, "get", "x"), (x, "get", "y"), (x, "list"), (x, "delete", "x")]
     if full:
         acts += [(x, "anon-get", "x"), (x, "anon-list"), (x, "anon-solve", "x"), (x, "anon-delete", "x")]
     return acts
@@ -191,6 +191,14 @@ class World:
                 self.m["bg_stale"][k] = name
 
     def normalise(self, body):
+        # JSON bodies: the graph DTO is built from hash maps, whose serialisation order differs from request to request
+        try:
+            body = json.dumps(json.loads(body), sort_keys=True)
+        except ValueError:
+            pass
+        return self.normalise_names(body)
+
+    def normalise_names(self, body):
         # temporary names are random: replace each by (creator, index among the creator's temporary accounts), which is
         # the same in the combined and in the alone run
         count = {}
@@ -451,6 +459,15 @@ def seed_state(world, which):
             do((x, "add", "x"))
             do((x, "apply", 0))
         return hist
+    if which == "holding2":
+        # A holds the shared name and owns two stored problems x and y; B is logged in as u2 and owns x
+        do(("A", "update", SHARED, PW["A"][1]))
+        for nme in ("x", "y"):
+            do(("A", "add", nme))
+            do(("A", "apply", 0))
+        do(("B", "add", "x"))
+        do(("B", "apply", 0))
+        return hist
     if which == "pending":
         # A holds the shared name and owns x whose parse result is still pending; B is logged in
         do(("A", "update", SHARED, PW["A"][1]))
@@ -469,7 +486,11 @@ def specs(tier, seed, nworkers):
         s.append({"mode": "E1", "seed_state": "empty", "depth": 3 if quick else 4, "group": g, "groups": groups, "tier": tier})
     s.append({"mode": "E1", "seed_state": "logged-in", "depth": 2 if quick else 3, "group": 0, "groups": 1, "tier": tier})
     s.append({"mode": "E1", "seed_state": "owning", "depth": 2 if quick else 3, "group": 0, "groups": 1, "tier": tier})
-    pg = 6
+    hg = 10
+    for g in range(hg):
+        s.append({"mode": "E1", "seed_state": "holding2", "depth": 3 if quick else 4, "group": g, "groups": hg, "tier": tier})
+    s.append({"mode": "E3", "tier": tier})
+    pg = 10
     for g in range(pg):
         s.append({"mode": "E1", "seed_state": "pending", "depth": 3 if quick else 4, "group": g, "groups": pg, "tier": tier})
     return s
@@ -514,6 +535,13 @@ def worker(server_bin, spec):
                 done.append(act)
         else:
             quick = spec["tier"] == "quick"
+            if spec.get("mode") == "E3":
+                overlap(w, stats)
+                svc.check()
+                res.update({"violations": w.viol, "requests": w.requests, "states": stats["states"], "transitions": stats["transitions"],
+                            "nontrivial": stats.get("windows_observed", 0), "outcomes": [], "wall": time.time() - t0, "capped": False,
+                            "completed_depth": None, "spec": spec, "windows_observed": stats.get("windows_observed", 0)})
+                return res
             root = seed_state(w, spec["seed_state"])
             budget_end = t0 + (100 if quick else 1500)
             g, gs = spec["group"], spec["groups"]
@@ -898,3 +926,57 @@ def worker(server_bin, spec):  # noqa: F811
                 "nontrivial": stats["schedules"], "outcomes": sorted(map(repr, stats["outcomes"])), "wall": time.time() - t0,
                 "capped": stats["capped"], "completed_depth": None, "spec": spec, "schedules": stats["schedules"], "outcome_sets": stats["outcome_sets"]})
     return res
+
+
+
+# =====================================================================================================================
+# E3: requests of the other client while a computation is running (the window is observed, not timed: a computation
+# is running as long as its result write has not reached the stub)
+
+def big_stable_code(mark, k=15):
+    # self-supporting statements: 2^k candidates for the enumerate-and-check stable semantics, a single stable model
+    nm = [mark] + ["w%d" % i for i in range(k)]
+    return "".join("s(%s)." % x for x in nm) + "".join("ac(%s,%s)." % (x, x) for x in nm)
+
+
+def overlap(world, stats):
+    w = world
+    hist = seed_state(w, "logged-in")
+    for x in CLIENTS:
+        st, body = w.clients[x].add("big", big_stable_code(MARK[x]), "Naive")
+        w.requests += 1
+        if st // 100 != 2:
+            raise MachineryError("cannot add the large problem (%s)" % st)
+        w.stub.wait_for(lambda: len(w.stub.bg_writes) >= 1, timeout=120.0, what="parse write")
+        w.stub.apply_bg(0)
+    covered = 0
+    for x in CLIENTS:
+        y = other(x)
+        label = [("overlap", "%s solves a large problem named like one of %s; %s asks while the computation runs" % (x, y, y))]
+        alone_get = w.clients[y].get("big")
+        alone_list = w.clients[y].list()
+        alone_get = (alone_get[0], w.normalise(alone_get[1]))
+        alone_list = (alone_list[0], w.normalise(alone_list[1]))
+        st, body = w.clients[x].solve("big", "Stable")
+        w.requests += 3
+        if st // 100 != 2:
+            raise MachineryError("cannot start the long computation (%s %s)" % (st, body[:80]))
+        during_get = w.clients[y].get("big")
+        during_list = w.clients[y].list()
+        during_get = (during_get[0], w.normalise(during_get[1]))
+        during_list = (during_list[0], w.normalise(during_list[1]))
+        w.requests += 2
+        inside = len(w.stub.bg_writes) == 0     # the result write has not arrived: the computation was still running
+        stats["transitions"] += 3
+        if inside:
+            covered += 1
+            if during_get != alone_get:
+                w.v("alone-equivalence", "%s's GET of its own problem changes while %s's computation on an equally named problem runs: %r vs %r" % (y, x, during_get[1][-120:], alone_get[1][-120:]), label)
+            if during_list != alone_list:
+                w.v("alone-equivalence", "%s's problem list changes while %s's computation runs" % (y, x), label)
+            if MARK[x] in during_get[1] or MARK[x] in during_list[1]:
+                w.v("leak:foreign-problem-in-response", "response to %s contains %s's problem" % (y, x), label)
+        w.stub.wait_for(lambda: len(w.stub.bg_writes) >= 1, timeout=300.0, what="the result write of the long computation")
+        w.stub.apply_bg(0)
+    stats["windows_observed"] = covered
+    stats["states"] += 2
